@@ -360,14 +360,19 @@ fn zero_density(m: &mut Monitor, case: u64, mc: &ModelCase, ss: &StateSpec) {
         let mu = st.residual_chemical_potential().to_reduced();
         let mumax = mu.iter().fold(0.0f64, |acc, x| acc.max(x.abs())) / s2.t;
         let worst = z.abs().max(a.abs()).max(s.abs()).max(mumax);
-        // B rho_max is O(1..1e3) for every model in the zoo at T >= 0.5 T_c
+        // B rho_max is O(1..1e3) for every non-associating, non-polar model in the zoo at
+        // T >= 0.5 T_c; association multiplies B by ~exp(eps_AB/kT), dipoles/quadrupoles by powers
+        // of 1/T: the bound is scaled accordingly (it is a sanity bound, not a value check)
+        let eps_ab = mc.spec.pure.iter().filter_map(|r| r["model_record"].get("epsilon_k_ab").and_then(|v| v.as_f64())).fold(0.0, f64::max);
+        let polar = mc.spec.pure.iter().any(|r| r["model_record"].get("mu").is_some() || r["model_record"].get("q").is_some());
+        let bound = 1e5 * (eps_ab / s2.t).exp().max(1.0) * if polar { 1e3 } else { 1.0 };
         let (model, st_json) = (mc.spec.clone(), s2.json());
         m.check(
             "zero_density:residual vanishes like rho",
             &format!("{fam}|zero density"),
             case,
             worst / frac,
-            1e5,
+            bound,
             move || json!({"model": model, "state": st_json, "Z_res": fnum(z), "a_res/NkT": fnum(a), "s_res/Nk": fnum(s), "mu_res/kT max": fnum(mumax)}),
         );
     }
